@@ -524,6 +524,8 @@ def b_str(eng, v=""):
                 return ""
             if len(args) == 1:
                 return ops.to_str(eng, args[0])
+    if isinstance(v, Ext) and hasattr(v, "sym_str"):
+        return v.sym_str(eng)
     return ops.to_str(eng, v)
 
 
